@@ -94,6 +94,8 @@ pub struct OpMeta {
 #[derive(Clone, Debug, Default)]
 pub struct Aux {
     pub next: u32,
+    /// hashes of all MerkleReg nodes written so far in this case
+    pub hashes: Vec<[u8; 32]>,
 }
 impl Aux {
     pub fn fresh(&mut self) -> u32 {
@@ -108,6 +110,15 @@ pub struct EditArgs {
     pub a: u16,
     pub b: u16,
     pub c: u16,
+    pub d: u16,
+    pub e: u16,
+    pub f: u16,
+}
+impl EditArgs {
+    /// arguments for the next nesting level
+    pub fn shift(self) -> EditArgs {
+        EditArgs { kind: self.b, a: self.d, b: self.e, c: self.c, d: self.f, e: self.kind.rotate_left(5) ^ 0x5a5a, f: self.a.rotate_left(7) ^ 0x1234 }
+    }
 }
 
 /// One read entry point probed for C07.
@@ -127,6 +138,9 @@ pub trait Subject: Sized + 'static {
     type St: Clone + PartialEq + Debug + Serialize + DeserializeOwned;
     type Op: Clone + Debug + Serialize + DeserializeOwned;
     const NAME: &'static str;
+    fn name() -> String {
+        Self::NAME.to_string()
+    }
     /// implements CvRDT
     const MERGE: bool;
     /// weakest delivery discipline under which the documentation promises convergence
@@ -166,6 +180,10 @@ pub struct Rep<S: Subject> {
     pub know: Bits,
     /// this state's lineage contains a merge
     pub merged: bool,
+    /// this state's lineage ever held a knowledge set that was not causally closed
+    pub noncausal: bool,
+    /// ops in the order they were first learned one by one (edits and deliveries; merges add -1 markers)
+    pub order: Vec<i32>,
     pub actor: Option<u8>,
 }
 
@@ -173,6 +191,7 @@ pub struct Snap<S: Subject> {
     pub st: S::St,
     pub know: Bits,
     pub merged: bool,
+    pub noncausal: bool,
     pub from: usize,
 }
 
@@ -208,10 +227,10 @@ impl<S: Subject> Sim<S> {
     pub fn new(plan: &Plan, disc: Disc) -> Self {
         let mut reps = Vec::new();
         for i in 0..plan.editors.max(1) {
-            reps.push(Rep { st: S::init(), know: 0, merged: false, actor: Some(i + 1) });
+            reps.push(Rep { st: S::init(), know: 0, merged: false, noncausal: false, order: Vec::new(), actor: Some(i + 1) });
         }
         for _ in 0..plan.observers {
-            reps.push(Rep { st: S::init(), know: 0, merged: false, actor: None });
+            reps.push(Rep { st: S::init(), know: 0, merged: false, noncausal: false, order: Vec::new(), actor: None });
         }
         Sim {
             reps,
@@ -293,6 +312,7 @@ impl<S: Subject> Sim<S> {
         self.ops.push(op.clone());
         S::apply(&mut self.reps[r].st, op);
         self.reps[r].know |= bit(id);
+        self.reps[r].order.push(id as i32);
         self.note(|| format!("r{r}: {call} => op#{id}"));
         Some(id)
     }
@@ -300,16 +320,22 @@ impl<S: Subject> Sim<S> {
     pub fn deliver(&mut self, r: usize, op: usize) {
         let o = self.ops[op].clone();
         S::apply(&mut self.reps[r].st, o);
+        if !has(self.reps[r].know, op) {
+            self.reps[r].order.push(op as i32);
+        }
         self.reps[r].know |= bit(op);
+        if !self.reps[r].noncausal && !self.closed(self.reps[r].know) {
+            self.reps[r].noncausal = true;
+        }
     }
 
     pub fn step(&mut self, step: &Step) -> Event<S> {
         let n = self.reps.len();
         let ev = match *step {
-            Step::Edit { r, kind, a, b, c } => {
+            Step::Edit { r, kind, a, b, c, d, e, f } => {
                 let r = idx(r, n);
                 let before = self.reps[r].st.clone();
-                match self.do_edit(r, EditArgs { kind, a, b, c }) {
+                match self.do_edit(r, EditArgs { kind, a, b, c, d, e, f }) {
                     Some(op) => Event::Edited { r, op, before },
                     None => Event::Skipped,
                 }
@@ -355,6 +381,9 @@ impl<S: Subject> Sim<S> {
                     S::merge(&mut self.reps[dst].st, src_st.clone());
                     self.reps[dst].know |= src_know;
                     self.reps[dst].merged = true;
+                    self.reps[dst].order.push(-1);
+                    let nc = self.reps[src].noncausal || !self.closed(self.reps[dst].know);
+                    self.reps[dst].noncausal |= nc;
                     self.note(|| format!("r{dst} <- merge(state of r{src})"));
                     Event::Merged { dst, src_know, src_st, before, before_know, stale: false }
                 }
@@ -365,7 +394,7 @@ impl<S: Subject> Sim<S> {
                     Event::Skipped
                 } else {
                     let rep = &self.reps[r];
-                    self.snaps.push(Snap { st: rep.st.clone(), know: rep.know, merged: rep.merged, from: r });
+                    self.snaps.push(Snap { st: rep.st.clone(), know: rep.know, merged: rep.merged, noncausal: rep.noncausal, from: r });
                     let k = self.snaps.len() - 1;
                     self.note(|| format!("snapshot s{k} := state of r{r}"));
                     Event::Snapshotted { r }
@@ -377,12 +406,15 @@ impl<S: Subject> Sim<S> {
                     Event::Skipped
                 } else {
                     let k = idx(pick, self.snaps.len());
-                    let snap = Snap::<S> { st: self.snaps[k].st.clone(), know: self.snaps[k].know, merged: self.snaps[k].merged, from: self.snaps[k].from };
+                    let snap = Snap::<S> { st: self.snaps[k].st.clone(), know: self.snaps[k].know, merged: self.snaps[k].merged, noncausal: self.snaps[k].noncausal, from: self.snaps[k].from };
                     let before = self.reps[dst].st.clone();
                     let before_know = self.reps[dst].know;
                     S::merge(&mut self.reps[dst].st, snap.st.clone());
                     self.reps[dst].know |= snap.know;
                     self.reps[dst].merged = true;
+                    self.reps[dst].order.push(-1);
+                    let nc = snap.noncausal || !self.closed(self.reps[dst].know);
+                    self.reps[dst].noncausal |= nc;
                     self.note(|| format!("r{dst} <- merge(snapshot s{k} of r{})", snap.from));
                     Event::Merged { dst, src_know: snap.know, src_st: snap.st, before, before_know, stale: true }
                 }
@@ -418,8 +450,13 @@ impl<S: Subject> Sim<S> {
     /// chosen by `picks` (creation order is a linear extension of causality and of per-author order).
     /// `respect`: which order the extension must respect.
     pub fn replay(&self, know: Bits, picks: &[u16], respect: Disc) -> S::St {
+        self.replay_order(know, picks, respect).0
+    }
+
+    pub fn replay_order(&self, know: Bits, picks: &[u16], respect: Disc) -> (S::St, Vec<i32>) {
         let mut st = S::init();
         let mut done: Bits = 0;
+        let mut order = Vec::new();
         let mut remaining: Vec<usize> = bits_vec(know);
         let mut p = 0usize;
         while !remaining.is_empty() {
@@ -437,14 +474,15 @@ impl<S: Subject> Sim<S> {
             let o = el[idx(pick, el.len())];
             S::apply(&mut st, self.ops[o].clone());
             done |= bit(o);
+            order.push(o as i32);
             remaining.retain(|x| *x != o);
         }
-        st
+        (st, order)
     }
 
     pub fn render(&self) -> Value {
         serde_json::json!({
-            "subject": S::NAME,
+            "subject": S::name(),
             "discipline": format!("{:?}", self.disc),
             "replicas": self.reps.iter().enumerate().map(|(i, r)| format!("r{i}{}", match r.actor { Some(a) => format!(" actor {a}"), None => " observer".into() })).collect::<Vec<_>>(),
             "history": self.log,
